@@ -329,7 +329,7 @@ func TestGenerated(t *testing.T) {
 	if rt.Thorough() {
 		sizes = append(append([]int{}, sizesQuick...), 5<<20, 4096*3, 8191, 8193)
 	}
-	rt.Check(t, 300, 20000, func(t *rapid.T) {
+	rt.Check(t, 300, 150000, func(t *rapid.T) {
 		s := scen{
 			move: rapid.Bool().Draw(t, "move"),
 			src:  rapid.SampledFrom([]int{srcRegular, srcRegular, srcRegular, srcViaSymlink, srcMissing}).Draw(t, "source"),
